@@ -386,6 +386,12 @@ func Esolexa(p float64) Qsolexa {
 	} else {
 		Q -= 0.5
 	}
+	if Q > 127 {
+		Q = 127
+	}
+	if Q < -127 {
+		Q = -127
+	}
 	return Qsolexa(Q)
 }
 
